@@ -19,10 +19,11 @@ TRUSTED = [
     'the harness observes commit/rollback by wrapping the module-level functions pony.orm.core.commit / rollback from outside; SQLite commit is atomic',
 ]
 ASSUMPTIONS = [
-    'the predicates allowed_exceptions / retry_exceptions (callables) are total and do not raise; core.rollback() does not raise',
+    'main model (streams, nesting, generators): the predicates allowed_exceptions / retry_exceptions answer and core.rollback() works; predicates that raise and a failing '
+    'rollback() are covered by the one-attempt fault model Model/C18Faults.v (theorems C18_faults_*), rollback failure injected at the boundary of core.rollback',
     'a body is: write marker rows, then finish or raise; it does not call commit()/rollback()/flush() itself (generators may call commit())',
     'commit() fails only because flushing a poisoned write raises; the failure happens before any row reaches the database',
-    'ddl=True sessions and the nested-serializable refusal of _enter are outside the model; immediate/strict/serializable/optimistic are varied in the '
+    'the nested ddl / nested-serializable refusals of _enter are outside the model; immediate / strict / serializable / optimistic / ddl / sql_debug / show_values are varied in the '
     'correspondence run and shown not to influence the observations',
 ]
 RULE = ('every implementation run is judged twice - by the Coq model (correspondence) and by the statement-level oracle (search): `evaluations` counts both judgements, `distinct_nontrivial` counts each distinct run once. ' 'exhaustive: decorator sessions with retry 0..3 x every stream of body outcomes of length retry+1 over {finish, raise one of 9 exception kinds '
@@ -546,8 +547,9 @@ LEVEL_TEXT = ('Machine-checked proof (Coq 8.16.1) over an executable model of DB
               'nothing is committed or rolled back inside a live session; generator sessions commit on StopIteration or manual commit only and never suspend '
               'with pending writes; the Bottle plugin is an instance; the Flask integration (whether __exit__ receives the exception type is re-read from the source) '
               'commits a request iff its view finished. The model is tied to /repo by exhaustive small-scope correspondence of full traces.')
-LEVEL_NOTE = ('Trusted: Coq kernel + vm_compute; the hand-written model (tied by correspondence, not by translation, except the Flask/Bottle facts and the decision '
-              'skeleton of _commit_or_rollback which are re-read from source each run); harness stubs of flask/bottle. Not modelled: ddl sessions, failing '
-              'rollback(), predicates that raise, bodies that call commit()/rollback() themselves (except generators).')
+LEVEL_NOTE = ('Also proved and tied: faults of the machinery itself (allowed/retry predicates that raise, a failing rollback()), BaseException-only exceptions, flushed-but-uncommitted generator state, '
+              'async def coroutines, ddl / sql_debug options. Trusted: Coq kernel + vm_compute; the hand-written model (tied by correspondence, not by translation, except the Flask/Bottle facts and the decision '
+              'skeleton of _commit_or_rollback which are re-read from source each run); harness stubs of flask/bottle. Not modelled: nested ddl / serializable refusals, '
+              'bodies that call commit()/rollback() themselves (except generators).')
 TECHNIQUE = 'Coq proof by induction over the retry loop / program structure / step list; vm_compute trace correspondence with the real db_session on SQLite; statement-level oracle search'
 DESIGN_REF = 'DESIGN.md section 5, C18'
